@@ -158,6 +158,21 @@ def end_to_end(ctx, htoy, drv):
                         expect.append(None)
                         ops.append("cred req %s now=%d peer=1:1 maxttl=%d skew=%d" % (cc.hx(cc.dec_req(rsp.data, retry=r.choice([0, 0, 1, 5]))), t1, mx, sk))
                         expect.append((ettl, t0, t1, mx, sk, data))
+    # presentation histories WITHOUT clearing the replay cache in between: the verdict of an out-of-window presentation is
+    # decided by the clock every time (an early or late presentation must not be recorded as "played"), and a credential
+    # first presented early is still valid once inside its window
+    nh = 0
+    for (ttl, t0, data), line in zip(meta, out):
+        rsp, _ = cc.rsp_of(line)
+        if not (rsp.ok and rsp.kind == "enc" and rsp.error_num == 0) or not (10000 < t0 < U32 - 10000) or nh >= (12 if ctx.tier == "quick" else 120):
+            continue
+        nh += 1
+        cap = min(300 if ttl == 0 else min(ttl, 3600), 3600)
+        ops.append("cred replay-reset"); expect.append(None)
+        for t1, want in ((t0 - cap - 1, 16), (t0 - cap - 1, 16), (t0 + cap + 1, 15), (t0, 0), (t0 + cap + 1, 15), (t0 + cap + 2, 15), (t0 - cap - 2, 16)):
+            ops.append("cred req %s now=%d peer=1:1 maxttl=3600 skew=1" % (cc.hx(cc.dec_req(rsp.data, retry=0)), t1))
+            expect.append(("hist", want, t0, t1, cap, data))
+    ctx.dist("e2e_history_decodes", 7 * nh)
     ctx.dist("e2e_decodes", len([e for e in expect if e]))
 
     def oracle(op, outl, _state={"i": 0}):
@@ -165,10 +180,16 @@ def end_to_end(ctx, htoy, drv):
         e = expect[i] if i < len(expect) else None
         if not e:
             return None
-        ettl, t0, t1, mx, sk, data = e
         rsp, _ = cc.rsp_of(outl)
         if not rsp.ok or rsp.kind != "dec":
             return "no well-formed decode reply"
+        if e[0] == "hist":
+            _, want, t0, t1, cap, data = e
+            if rsp.error_num != want:
+                return ("presentation history (replay cache not cleared): verdict %d at t1=%d, the clock alone requires %d "
+                        "(t0=%d ttl'=%d; earlier presentations of this credential were all outside its window)" % (rsp.error_num, t1, want, t0, cap))
+            return None
+        ettl, t0, t1, mx, sk, data = e
         inside, nowrap, cap = window_verdict(ettl, t0, t1, mx, sk)
         if rsp.error_num == 0 and not inside:
             return "decode succeeded outside the validity window"
